@@ -233,8 +233,17 @@ class BootEngine(object):
     # -- one boot ------------------------------------------------------------
     def draw_options(self):
         t = self.t
-        mode = t.weighted([2, 3, 3, 2])
+        mode = t.weighted([2, 3, 3, 2, 2])
         opts = {}
+        if mode == 4:
+            # some of the options of a board preset (e.g. the hardware
+            # version without the LED wiring, or the reverse), maybe with
+            # other values
+            self.w.probe("partial_preset")
+            for k, v in sorted(getattr(self.bootmod,
+                                       PRESETS[t.draw(5)]).items()):
+                if t.draw(2):
+                    opts[k] = v if t.draw(3) else t.draw_small(8, 0.6)
         if mode == 0:
             self.w.probe("no_options")
         if mode in (1, 3):
@@ -246,7 +255,8 @@ class BootEngine(object):
                       f.name not in ("unix_time", "boot_sig", "root_chip")]
             for _ in range(1 + t.draw(4)):
                 f = fields[t.draw(len(fields))]
-                opts[f.name] = t.draw(1 << (8 * f.size))
+                opts[f.name] = t.draw(1 << (8 * f.size)) if t.draw(3) else \
+                    t.draw_small(min(8, 1 << (8 * f.size)), 0.6)
         return opts
 
     def send_hook(self, sock, data):
